@@ -1,5 +1,6 @@
 import GoomVerif.Drv.Util
 import GoomVerif.Model.Mem
+import GoomVerif.Model.MemHist
 /-! Driver for C14.
 
 * `c14.ps <a>`                                  → `ps=<PageStart a>`                       (generated `Gen.Page.PageStart`)
@@ -142,6 +143,172 @@ def doInstall (entryOff funcSize : Nat) (orig : List Byte) : String :=
     let _ := pg
     s!"apply={outcomeName o} entry={maskJump entry} calls={joinOr (rel (callsOf origin jd0 s0))} unpatch={outcomeName o2} restored={back == orig} calls2={joinOr (callsOf origin saved s1)} lens={saved.length}/{jd.length}"
 
+/-! ### histories: `c14.hist <targets> | <steps>`
+  target `T:<slot>:<entryOff>:<fsz>:<first13>:<name>` — a real function in text page number `slot`;
+  target `M:<off>:<fsz>:<first13>:<name>`             — a copy of that function at offset `off` of the middle page of its own
+                                                          3-page r-x mapping (may straddle the page end);
+  steps `patch.i apply.i unpatch.i restore.i unpatchfn.i unpatchall unmap.i`.
+  Output per step: `<step>=<res>[<calls>]{<state of every target: o j u ?>}`; page labels `t<slot>` / `m<i>.<k>`. -/
+
+structure HTarget where
+  isM : Bool
+  org : Addr
+  fsz : Nat
+  first : List Byte
+  region : Addr        -- M: start of its mapping
+
+def hbaseT : Nat := base.toNat
+def hbaseM (i : Nat) : Nat := base.toNat + 0x1000000 * (i + 1)
+
+def parseTarget (i : Nat) (t : String) : Option HTarget :=
+  match t.splitOn ":" with
+  | ["T", slot, eo, fsz, first, _] => do
+    let sl ← parseNat slot; let e ← parseNat eo; let f ← parseNat fsz; let b ← parseBytes first
+    pure ⟨false, BitVec.ofNat 64 (hbaseT + 4096 * (1 + sl) + e), f, b, 0⟩
+  | ["M", off, fsz, first, _] => do
+    let o ← parseNat off; let f ← parseNat fsz; let b ← parseBytes first
+    pure ⟨true, BitVec.ofNat 64 (hbaseM i + 4096 + o), f, b, BitVec.ofNat 64 (hbaseM i)⟩
+  | _ => none
+
+def labelOf (ts : List HTarget) (p : Addr) : String :=
+  match (List.range ts.length).find? (fun i => match ts[i]? with
+      | some t => t.isM && t.region.toNat ≤ p.toNat && p.toNat < t.region.toNat + 3 * 4096
+      | none => false) with
+  | some i => s!"m{i}.{(p.toNat - (hbaseM i)) / 4096}"
+  | none => s!"t{(p.toNat - hbaseT) / 4096 - 1}"
+
+/-- calls of one `WriteTo`, with page labels -/
+def hcalls (ts : List HTarget) (a : Addr) (data : List Byte) (s : State) : List String :=
+  let n := data.length
+  let lab := fun (st : Step) (r : String) => match st with
+    | .mprotect p pr => s!"{labelOf ts p}:{protName pr}={r}"
+    | .store _ _ => ""
+  let pass := fun (s : State) (steps : List Step) =>
+    steps.foldl (fun (acc : List String × State × Bool) st =>
+      let (out, cur, failed) := acc
+      if failed then acc else
+      match step cur st with
+      | .ok s' => (out ++ [lab st "0"], s', false)
+      | .error e => (out ++ [lab st (errName e)], cur, true)) ([], s, false)
+  let (c1, s1, f1) := pass s (protScript a n RWX)
+  if f1 then
+    let (c2, s2, f2) := pass s1 (protScript a n RW)
+    if f2 then c1 ++ c2 else
+    let (s3, e3) := run s2 (copyScript a data)
+    if e3.isSome then c1 ++ c2 else c1 ++ c2 ++ (pass s3 (protScript a n RX)).1
+  else
+    let (s2, e2) := run s1 (copyScript a data)
+    if e2.isSome then c1 else c1 ++ (pass s2 (protScript a n RX)).1
+
+/-- the writes an operation attempts, in order (each is attempted only if the previous one returned) -/
+def writesOf (h : HState) : HOp → List (Addr × List Byte)
+  | .patch i => match h.table.find? (fun e => e.1 = i) with
+    | some (_, true) => match h.slots i with
+      | some g => if g.applied then [(g.origin, g.originBytes)] else []
+      | none => []
+    | _ => []
+  | .apply i => match h.slots i with | some g => [(g.origin, g.jumpBytes)] | none => []
+  | .unpatch i => match h.slots i with | some g => if g.applied then [(g.origin, g.originBytes)] else [] | none => []
+  | .restore i => match h.slots i with | some g => if g.applied then [(g.origin, g.jumpBytes)] else [] | none => []
+  | .unpatchFn i => match h.table.find? (fun e => e.1 = i) with
+    | some (_, true) => match h.slots i with
+      | some g => if g.applied then [(g.origin, g.originBytes)] else []
+      | none => []
+    | _ => []
+  | .unpatchAll => h.table.filterMap (fun e => match e.2, h.slots e.1 with
+      | true, some g => if g.applied then some (g.origin, g.originBytes) else none
+      | _, _ => none)
+  | .unmap _ => []
+
+def groupsOf (ts : List HTarget) (s : State) (ws : List (Addr × List Byte)) : List String :=
+  (ws.foldl (fun (acc : List String × State × Bool) w =>
+    let (out, cur, stop) := acc
+    if stop then acc else
+    let cs := hcalls ts w.1 w.2 cur
+    let (s', o) := writeTo w.1 w.2 cur
+    (out ++ ["(" ++ String.intercalate "," cs ++ ")"], s', !o.returned)) ([], s, false)).1
+
+def insertSorted (x : String) : List String → List String
+  | [] => [x]
+  | y :: ys => if x ≤ y then x :: y :: ys else y :: insertSorted x ys
+
+def sortStrings (xs : List String) : List String := xs.foldl (fun acc x => insertSorted x acc) []
+
+def isJump (bs : List Byte) : Bool :=
+  match bs with
+  | [a, b, c, _, _, _, _, _, _, _, _, d, e] => a == 0x90#8 && b == 0x48#8 && c == 0xBA#8 && d == 0xFF#8 && e == 0x22#8
+  | _ => false
+
+def stateVec (ts : List HTarget) (s : State) : String :=
+  String.join (ts.map (fun t =>
+    match s.perm (pageOf t.org) with
+    | none => "u"
+    | some _ =>
+      let cur := readBytes s t.org 13
+      if cur == t.first then "o" else if isJump cur then "j" else "?"))
+
+def lensVec (n : Nat) (h : HState) : String :=
+  String.intercalate "," ((List.range n).map (fun i => match h.slots i with
+    | some g => s!"{g.originBytes.length}/{g.jumpBytes.length}"
+    | none => "-"))
+
+def resName : HRes → String
+  | .ok => "ok"
+  | .noop => "noop"
+  | .refused w => "refused:" ++ w
+  | .panic => "panic"
+
+def parseStep (ts : List HTarget) (t : String) : Option HOp :=
+  match t.splitOn "." with
+  | ["patch", i] => (parseNat i).map HOp.patch
+  | ["apply", i] => (parseNat i).map HOp.apply
+  | ["unpatch", i] => (parseNat i).map HOp.unpatch
+  | ["restore", i] => (parseNat i).map HOp.restore
+  | ["unpatchfn", i] => (parseNat i).map HOp.unpatchFn
+  | ["unpatchall"] => some HOp.unpatchAll
+  | ["unmap", i] => do
+    let k ← parseNat i
+    let t ← ts[k]?
+    if t.isM then pure (HOp.unmap (pageOf t.org)) else none      -- the whole mapping goes; the model needs the entry's page(s)
+  | _ => none
+
+def doHist (ts : List HTarget) (steps : List String) : String :=
+  let L : Layout := { org := fun i => (ts[i]?.map (·.org)).getD 0, fsz := fun i => (ts[i]?.map (·.fsz)).getD 0,
+                      to := 0x00c000123456#64 }
+  let mem0 : Addr → Byte := fun q =>
+    match ts.find? (fun t => t.org.toNat ≤ q.toNat && q.toNat < t.org.toNat + t.first.length) with
+    | some t => t.first.getD (q.toNat - t.org.toNat) 0
+    | none => pat (q.toNat % 4096)
+  let perm0 : Addr → Option Perm := fun p =>
+    if p.toNat % 4096 != 0 then none
+    else if ts.any (fun t => t.isM && t.region.toNat ≤ p.toNat && p.toNat < t.region.toNat + 3 * 4096) then some RX
+    else if hbaseT ≤ p.toNat && p.toNat < hbaseT + 4096 * 64 then some RX else none
+  let h0 : HState := { m := { mem := mem0, perm := perm0 }, slots := fun _ => none, table := [] }
+  let (out, _, _) := steps.foldl (fun (acc : List String × HState × Bool) st =>
+    let (out, h, stop) := acc
+    if stop then acc else
+    match parseStep ts st with
+    | none => (out ++ [st ++ "=bad-step"], h, true)
+    | some (HOp.unmap p) =>
+      -- unmapping the mapping removes all three pages of the region
+      let reg := (ts.find? (fun t => t.isM && pageOf t.org == p)).map (·.region)
+      let h' := match reg with
+        | some r => [0, 1, 2].foldl (fun hh k => (hstep L hh (HOp.unmap (r + BitVec.ofNat 64 (k * 4096)))).1) h
+        | none => h
+      (out ++ [st ++ "=ok[]{" ++ stateVec ts h'.m ++ ";" ++ lensVec ts.length h' ++ "}"], h', false)
+    | some op =>
+      let ws := writesOf h op
+      let gs := groupsOf ts h.m ws
+      let (h', r) := hstep L h op
+      -- UnpatchAll visits goom's map in an unspecified order: if a write in the middle does not return, which targets were
+      -- restored before is not determined
+      if r == HRes.panic && (match op with | HOp.unpatchAll => true | _ => false) && ws.length > 1 then
+        (out ++ [st ++ "=panic[nondet]"], h', true)
+      else
+        let gs' := match op with | HOp.unpatchAll => sortStrings gs | _ => gs
+        (out ++ [st ++ "=" ++ resName r ++ "[" ++ String.join gs' ++ "]{" ++ stateVec ts h'.m ++ ";" ++ lensVec ts.length h' ++ "}"], h', false)) ([], h0, false)
+  String.intercalate " " out
+
 def handle (toks : List String) : Option String :=
   match toks with
   | ["c14.ps", a] =>
@@ -156,6 +323,10 @@ def handle (toks : List String) : Option String :=
     match parseNat off, parseBytes hx, parsePerms perms with
     | some o, some d, some ps => some (doWrite o d ps true)
     | _, _, _ => some "bad-op"
+  | "c14.hist" :: tg :: "|" :: steps =>
+    match ((tg.splitOn ",").zipIdx.mapM (fun (t, i) => parseTarget i t)) with
+    | some ts => some (doHist ts steps)
+    | none => some "bad-op"
   | "c14.survey" :: _ => some "oracle-only"
   | "c14.tramp" :: _ => some "oracle-only"
   | "c14.gen" :: fs :: _ =>
